@@ -4,6 +4,7 @@ import (
 	"encoding/json"
 	"fmt"
 	"os"
+	"os/exec"
 	"path/filepath"
 
 	"verif/internal/asmgen"
@@ -42,6 +43,8 @@ type PropDef struct {
 	TimeoutQuickMs, TimeoutThoroughMs     int
 	ConformanceQuick, ConformanceThorough int
 	Overlay                               func() (map[string][]byte, error) // engine overlay (in-package harnesses)
+	OptionalInPkg                         string                            // jobs whose Pkg is this one need the in-package harness ...
+	InPkgProbe                            func(work string) string          // ... which this probe compiles ("" = fine)
 	NativeOverlay                         func(work string) string          // go build -overlay file for the replayer
 }
 
@@ -141,8 +144,29 @@ var (
 	c06RegPath = verifDir + "/harness/all/zz_c06sym.go"
 )
 
+// The in-package harness reads unexported fields of asm.Emitter. If a tree has renamed or
+// restructured them the harness no longer compiles; that is not a property violation. The driver
+// probes once (c06Probe) and, on failure, tells itself and its workers through the environment to do
+// without it: the public-API templates remain, the evidence says so.
+const noInPkgEnv = "VERIF_C06_NO_INPKG"
+
 func c06Overlay() (map[string][]byte, error) {
+	if os.Getenv(noInPkgEnv) != "" {
+		return nil, nil
+	}
 	return map[string][]byte{c06SymPath: []byte(inpkg.C06Sym), c06RegPath: []byte(inpkg.C06Reg)}, nil
+}
+
+// c06Probe compiles package asm with the harness file laid over it; returns the compiler's message on failure.
+func c06Probe(work string) string {
+	ov := writeNativeOverlay(work, map[string][]byte{c06SymPath: []byte(inpkg.C06Sym)})
+	cmd := exec.Command("go", "build", "-overlay", ov, "github.com/alttpo/snes/asm")
+	cmd.Dir = verifDir
+	cmd.Env = goEnv()
+	if out, err := cmd.CombinedOutput(); err != nil {
+		return tail(string(out), 600)
+	}
+	return ""
 }
 
 func writeNativeOverlay(work string, ov map[string][]byte) string {
@@ -162,6 +186,9 @@ func writeNativeOverlay(work string, ov map[string][]byte) string {
 
 func c06NativeOverlay(work string) string {
 	ov, _ := c06Overlay()
+	if ov == nil {
+		return ""
+	}
 	return writeNativeOverlay(work, ov)
 }
 
@@ -313,6 +340,9 @@ func init() {
 				js = append(js, job("c10", "Reads", fmt.Sprintf("c10/reads/banks130/%d,%d,%d", l[0], l[1], l[2]), 130, int64(l[0]), int64(l[1]), int64(l[2])))
 				js = append(js, job("c10", "Writes", fmt.Sprintf("c10/writes/banks130/%d,%d,%d", l[0], l[1], l[2]), 130, int64(l[0]), int64(l[1]), int64(l[2])))
 			}
+			for _, extra := range []int{0, 1, 2, 0x40} {
+				js = append(js, job("c10", "Huge", fmt.Sprintf("c10/huge-write/banks2/64KiB+%d", extra), 2, int64(extra)))
+			}
 			for _, l := range [][2]int{{1, 1}, {2, 1}, {1, 3}, {3, 2}, {0, 2}} {
 				js = append(js, job("c10", "Handles", fmt.Sprintf("c10/handles/banks2/%d,%d", l[0], l[1]), 2, int64(l[0]), int64(l[1])))
 				if tier == "thorough" {
@@ -419,7 +449,7 @@ func init() {
 	})
 	props = append(props, &PropDef{
 		ID: "C06", Title: "Finalize resolves every label reference to the right target or reports an error", Level: "model_checking",
-		Patterns: []string{"verif/harness/c06", "github.com/alttpo/snes/asm"}, PermuteMaps: true, Overlay: c06Overlay, NativeOverlay: c06NativeOverlay,
+		Patterns: []string{"verif/harness/c06", "github.com/alttpo/snes/asm"}, PermuteMaps: true, Overlay: c06Overlay, NativeOverlay: c06NativeOverlay, OptionalInPkg: "github.com/alttpo/snes/asm", InPkgProbe: c06Probe,
 		Jobs:             c06Jobs,
 		Bounds:           []string{"programs of at most 7 emitter calls from the alphabet {Label L0/L1, relative branch to L0/L1 (all 7 branch methods), JMP_abs L0/L1, NOP, data block of 1,2,3,123..127 symbolic bytes}: every template in c06Jobs (forward/backward/multiple/missing/duplicate references, distances -130..+130 around both limits)", "base unset or any bank-contained 24-bit base (symbolic); data contents symbolic; every iteration order of the two label maps (<=3 entries) explored", "at most 2 labels and 3 references per label", "after a failed Finalize: a second call fails again; after defining every missing label (at the end of the program) the verdict and the operands are again those of the books; after success a second Finalize succeeds and changes nothing"},
 		Outside:          []string{"more than 2 labels / 3 references per label (the resolution loops repeat the same body - argued, not checked)", "the text of out-of-range error messages (contains symbolic addresses); only the failure itself is checked there"},
@@ -455,7 +485,9 @@ func init() {
 			if tier == "thorough" {
 				return []MetaSource{{"C01", 1}, {"C02", 1}, {"C03", 1}, {"C04", 1}, {"C05", 1}, {"C06", 1}, {"C07", 1}, {"C09", 1}, {"C10", 1}, {"C11", 1}, {"C12", 1}, {"C13", 4}, {"C14", 1}, {"C15", 1}, {"C16", 4}, {"C17", 1}, {"C19", 1}}
 			}
-			return []MetaSource{{"C01", 4}, {"C02", 5}, {"C03", 1}, {"C04", 1}, {"C05", 1}, {"C06", 2}, {"C07", 1}, {"C09", 1}, {"C10", 4}, {"C11", 16}, {"C12", 8}, {"C13", 16}, {"C14", 4}, {"C15", 4}, {"C16", 32}, {"C17", 1}, {"C19", 8}}
+			// prime strides: a job list that alternates between kinds of job (C11: address / long read) is
+			// not sampled on one kind only
+			return []MetaSource{{"C01", 5}, {"C02", 7}, {"C03", 1}, {"C04", 1}, {"C05", 1}, {"C06", 3}, {"C07", 1}, {"C09", 1}, {"C10", 5}, {"C11", 17}, {"C12", 7}, {"C13", 17}, {"C14", 5}, {"C15", 5}, {"C16", 31}, {"C17", 1}, {"C19", 7}}
 		},
 		Jobs:        func(tier string) []sym.Job { return nil },
 		Bounds:      []string{"the jobs of the other properties (quick: every k-th job per property, offset by VERIF_SEED; thorough: all), i.e. single steps of both CPUs for all opcodes, disassembly, CreateEmulator, RunUntil, every emitter method, Finalize, listings, Clone/Append, the mapping and colour functions, ROM/header code - each from symbolic inputs", "plus a syntactic scan of every repository function for stores through addresses derived from package-level variables"},
@@ -737,6 +769,17 @@ func c06Jobs(tier string) []sym.Job {
 			add("empty", br, base)
 		}
 	}
+	if tier != "thorough" {
+		// every one of the seven relative-branch methods records its reference (quick tier: the
+		// remaining five methods on the smallest templates; the thorough tier runs them all everywhere)
+		for br := 1; br <= 5; br++ {
+			add("forward/pad1", br, br%2, oN, oB0, 8+0, oL0, oN)
+			add("backward/pad1", br, (br+1)%2, oN, oL0, 8+0, oB0, oN)
+			add("missing-label", br, br%2, oN, oB0, oN)
+			add("forward/pad127", br, br%2, cat([]int{oN, oB0}, c06Pad(127), []int{oL0, oN})...)
+			add("forward/pad128", br, br%2, cat([]int{oN, oB0}, c06Pad(128), []int{oL0, oN})...)
+		}
+	}
 	return js
 }
 
@@ -874,6 +917,9 @@ func c16Jobs(tier string) []sym.Job {
 			}
 		}
 	}
+	for _, n := range []int{1, 2, 3, 5, 6, 9} {
+		js = append(js, job("c16", "SharedFragment", fmt.Sprintf("c16/shared-fragment/lines%d", n), int64(n)))
+	}
 	return js
 }
 
@@ -891,6 +937,7 @@ func c13Jobs(tier string) []sym.Job {
 		js = append(js, job("c13", "Route24", fmt.Sprintf("c13/route24/layout%03d", toBase9(l)), int64(l)))
 	}
 	js = append(js, job("c13", "Devices", "c13/library-devices/ram+rom"))
+	js = append(js, job("c13", "LargeDevice", "c13/library-devices/ram-128KiB"))
 	for _, l := range []int{0, 1, 4, 1 + 9*3, 2 + 9*4 + 81*5} {
 		js = append(js, job("c13", "Misaligned", fmt.Sprintf("c13/misaligned/layout%03d/any-24-bit-range", toBase9(l)), int64(l), -1, -1))
 		for _, sg := range [][2]int{{9, 9}, {9, 12}, {4, 20}, {14, 15}} {
